@@ -17,7 +17,7 @@ RULE = ('returned c: integers, not all zero, max|c_k| < maxcoeff, (sum c_k x_k)^
         '1e-2, 1e-3, 2^-20, 2^-(p-10)}; maxcoeff in {10, 1000, 10^6}.  Planted: x = (sqrt 2, pi, -(c1 sqrt 2 + c2 pi)/c3) for ALL primitive c in {-3..3}^3, c3 != 0: the result '
         'is +-c; x = c_n*(r_1..r_(n-1)), -sum c_i r_i with 80-bit dyadic r_i (the relation holds exactly) for 240 frozen c with entries up to 999: the result is +-c/gcd.  '
         'findpoly(x, n) for x of degree d in 1..6 and n in 1..d+1: for n >= d the minimal polynomial (up to sign), for n < d None or a polynomial that really vanishes to the '
-        'tolerance; integer coefficients, degree <= n.  identify(x[, constants][, full=True]) for 40 closed-form inputs: every returned string evaluates (at 2p bits) to x '
+        'tolerance; integer coefficients, degree <= n.  identify(x[, constants][, full=True]) for 40 closed-form inputs (both signs; plus near misses +-(c + 2e-24) with tol = 1e-29): every returned string evaluates (at 2p bits) to x '
         'within 2^12*tol*(1+|x|+1/|x|)*(1+sum constants).  precisions {53,100,150; thorough 300}.  non-trivial = every returned object checked; distinct by construction')
 ASSUMPTIONS = ['constants pi, e, ... are taken as the mpf values the library produces at the working precision; the exact check is against those dyadic values']
 BOUNDS = {'quick': 'precisions {53,100,150}', 'thorough': 'adds 300'}
@@ -326,6 +326,32 @@ def t_identify(task):
                             acc.violation(case + [s], 'identify(%s, %s, tol=%s) at prec %d returned %r = %s, but x = %s (difference %s, allowed %s)' % (name, consts, tname, p, s, mp.nstr(v, 20), mp.nstr(x, 20), mp.nstr(abs(v - x), 4), mp.nstr(bound, 4)),
                                           kind='identify', sub='value')
                         mp.prec = p
+        # near misses with an explicit tight tolerance, both signs: a closed form that matches only to 1e-24 must not be returned for tol = 1e-29
+        if p >= 100:
+            for sign in (1, -1):
+                for base, consts in (('mpf(17)/41', []), ('mpf(31)/97', []), ('3*pi/7', ['pi']), ('(1+sqrt(5))/2', [])):
+                    mp.prec = p + 20
+                    xv = sign * (eval(base, dict(ns)) + mp.mpf(10) ** -24 * 2)
+                    mp.prec = p
+                    x = +xv
+                    tol = mp.mpf(10) ** -29
+                    case = ['identify-near-miss', base, sign, p]
+                    acc.evals += 1; acc.nontrivial += 1
+                    try:
+                        res = core.with_timeout(120, mp.identify, x, consts, tol)
+                    except core.TimeoutHit:
+                        acc.count('timeouts'); continue
+                    except Exception as e:
+                        acc.violation(case, 'identify raised %r' % e, kind='identify', sub='raise'); mp.prec = p; continue
+                    if res is None:
+                        continue
+                    mp.prec = 2 * p + 20
+                    import re
+                    v = eval(re.sub(r'(?<![\w.])(\d+)(?![\w.])', r'mpf(\1)', res), dict(ns))
+                    if abs(v - x) > mp.mpf(2) ** 12 * tol * (1 + abs(x) + 1 / abs(x)) * (1 + len(consts) * 4):
+                        acc.violation(case, 'identify(%s(%s + 2e-24), %s, tol=1e-29) at prec %d returned %r, which differs from x by %s' % ('-' if sign < 0 else '', base, consts, p, res, mp.nstr(abs(v - x), 4)),
+                                      kind='identify', sub='value', negative=(sign < 0), doubleroot=('sqrt(0)' in res))
+                    mp.prec = p
         acc.sample(['identify', 'phi', False, 'default', p])
     finally:
         mp.prec = 53
